@@ -1,5 +1,6 @@
 """C14: uncertainty propagation (spec/Uncertainty.tla, MC_Uncertainty)."""
 import random
+from decimal import Decimal
 from fractions import Fraction
 
 from core import MachineryError, Verdict, replay_histories, require_ok, run_tlc, workdir
@@ -16,7 +17,9 @@ class UncDriver(QuantDriver):
         self.meas = []
         for rec in self.sys["meas"]:
             q = self.pool[rec["q"] - 1]
-            self.meas.append(q if rec["plain"] else m.Measurement(q, float(frac(rec["s"]))))
+            sfr = frac(rec["s"])
+            unc = (Decimal(sfr.numerator) / Decimal(sfr.denominator)) if isinstance(q.magnitude, Decimal) else float(sfr)
+            self.meas.append(q if rec["plain"] else m.Measurement(q, unc))
 
     def apply(self, ev, ctx, stats):
         m = self.m
@@ -46,7 +49,13 @@ class UncDriver(QuantDriver):
             return [{"prop": "DRIFT", "key": "foreign-unit", "detail": desc}]
         want = frac(ev["phys"]["r"]) * pvf(ev["phys"]["pv"])
         got = Fraction(r.measurand.magnitude) * size
-        if got != want and abs(got - want) > Fraction(1e-12) * max(abs(got), abs(want), Fraction(1, 10 ** 9)):
+        scale = max(abs(got), abs(want), Fraction(1, 10 ** 9))
+        if op in ("add", "sub"):
+            # rounding is relative to the operands, not to a difference that may cancel to ~0
+            for rec in (arec, brec):
+                q = self.sys["pool"][rec["q"] - 1]
+                scale = max(scale, abs(frac(q["m"]) * self.usize(self.pool[rec["q"] - 1].unit)))
+        if got != want and abs(got - want) > Fraction(1e-12) * scale:
             mm.append(self._mm("C14", "%s:measurand" % shape, "%s: measurand SI value %s, expected %s" % (desc, float(got), float(want))))
         if r.uncertainty.unit is not r.measurand.unit:
             mm.append(self._mm("C14", "%s:uncertainty-unit" % shape, "%s: uncertainty in %s, measurand in %s" % (desc, r.uncertainty.unit, r.measurand.unit)))
@@ -71,7 +80,7 @@ class UncDriver(QuantDriver):
 def run_c14(tier, seed):
     v = Verdict("C14", tier, seed)
     v.assumptions = ["measurands on a small rational grid including zero and negatives; uncertainties {0, 1/2, (1,) 2}; three length units (one prefixed) and a time unit",
-                     "variance compared at 1e-9 relative (the code takes a float square root)", "exponents -4..4"]
+                     "variance compared at 1e-9 relative (the code takes a float square root)", "exponents -4..4", "magnitudes are floats in the enumeration; the same cases are re-instantiated with Decimal and with mixed Decimal/float magnitudes"]
     res = run_tlc("MC_Uncertainty", wd=workdir("tlc_unc"), env={"VERIF_UPOOL": 1 if tier == "quick" else 2}, workers=8, timeout=3000)
     require_ok(res, "MC_Uncertainty")
     v.add_tlc(res, "MC_Uncertainty")
@@ -90,8 +99,25 @@ def run_c14(tier, seed):
     v.add_violations(rep["mm"])
     cold = {x["key"] for x in rep["mm"]}
     v.add_violations([dict(x, key="warm:" + x["key"]) if x["key"] not in cold else x for x in repw["mm"]])
+    # the same cases written with Decimal magnitudes and uncertainties (all of them, or every other operand: Decimal with float)
+    import copy
+    kinds_stats = {}
+    for label, pick in (("decimal", lambda i: True), ("mixed", lambda i: i % 2 == 0)):
+        sysk = copy.deepcopy(system)
+        for i, q in enumerate(sysk["pool"]):
+            if pick(i):
+                q["k"] = "Decimal"
+        sub = list(cases)
+        random.Random(seed + 1).shuffle(sub)
+        if tier == "quick":
+            sub = sub[:3000]
+        repk = replay_histories([sub[i::8] for i in range(8)], UncDriver(system=sysk, props=("C14",)), split_depth=1, label="unc_" + label)
+        v.impl += repk["n"]
+        v.evaluations += repk["n"]
+        v.add_violations([dict(x, key=label + ":" + x["key"]) if x["key"] not in cold else x for x in repk["mm"]])
+        kinds_stats[label] = repk["stats"]
     v.exhaustive = True
-    v.extra["replay"] = {"cases": len(cases), "cold": rep["stats"], "warm": repw["stats"]}
+    v.extra["replay"] = {"cases": len(cases), "cold": rep["stats"], "warm": repw["stats"], "kinds": kinds_stats}
     v.rule = ("cases = (operator, operands) over measurements and plain quantities enumerated by TLC with the exact variance; each executed in a "
               "fresh fork and again in shared processes in two orders; non-trivial = cases that returned a Measurement")
     random.Random(seed).shuffle(cases)
